@@ -50,8 +50,8 @@ constexpr auto tanh_check(T const x) noexcept -> T
 {
     return ( // NaN check
         is_nan(x) ? etl::numeric_limits<T>::quiet_NaN() :
-                  // indistinguishable from zero
-            etl::numeric_limits<T>::epsilon() > abs(x) ? T(0)
+                  // tanh(x) = x + O(x^3): indistinguishable from x (also keeps the sign of a zero)
+            etl::numeric_limits<T>::epsilon() > abs(x) ? x
                                                        :
                                                        // else
             x < T(0) ? -tanh_begin(-x)
